@@ -776,11 +776,16 @@ pub fn run(tier: &str) -> i32 {
   let deepest = max_len;
   // (the thorough tier used to run length 8 from a reduced set of initial states only; it now
   // runs every length up to 8 from all 135)
-  if c[K_BADBUS] != 0 {
-    rep.machinery_error(format!("reference saw an access outside ROM / stack window / IF / IE, or lost lock-step bookkeeping, in {} histories", c[K_BADBUS]));
+  // lock-step bookkeeping lost without any reported disagreement is the harness's fault; lost
+  // after the subject and the reference have already been reported to disagree it is a
+  // consequence of that disagreement (the reference no longer knows where the subject is)
+  if c[K_BADBUS] != 0 && rep.violations.is_empty() {
+    rep.machinery_soft(format!("reference saw an access outside ROM / stack window / IF / IE, or lost lock-step bookkeeping, in {} histories", c[K_BADBUS]));
+  } else if c[K_BADBUS] != 0 {
+    rep.cov("histories_cut_after_lock_step_was_lost", J::u(c[K_BADBUS]));
   }
-  if c[K_MAXUPD] != 0 {
-    rep.machinery_error(format!("{} histories hit the {}-update safety cap", c[K_MAXUPD], MAX_UPDATES));
+  if c[K_MAXUPD] != 0 && rep.violations.is_empty() {
+    rep.machinery_soft(format!("{} histories hit the {}-update safety cap", c[K_MAXUPD], MAX_UPDATES));
   }
   rep.evaluations = c[K_UPD];
   rep.distinct = states;
